@@ -154,6 +154,11 @@ pub struct Case {
 
 pub fn check_case(c: &Case) -> Check {
     let body = c.drd.encode_body();
+    // (0) history: a failed decode of a truncated copy on the same thread must not influence what follows
+    if let Some(sel) = c.lead.first() {
+        let cut = (*sel as usize * body.len()) >> 8;
+        let _ = no_panic("decode_digital_radar_data", || drd::decode_digital_radar_data(&mut Cursor::new(&body[..cut])).map(|_| ()))?;
+    }
     // (1) direct entry point at stream position 0
     let m = no_panic("decode_digital_radar_data", || drd::decode_digital_radar_data(&mut Cursor::new(&body[..])))?
         .map_err(|e| Fail::new("drd:wellformed-rejected", format!("{:?}", e)))?;
@@ -166,6 +171,14 @@ pub fn check_case(c: &Case) -> Check {
     let m2 = no_panic("decode_digital_radar_data", || drd::decode_digital_radar_data(&mut cur))?
         .map_err(|e| Fail::new("drd:wellformed-rejected-at-offset", format!("lead {} bytes: {:?}", c.lead.len(), e)))?;
     check_drd(&c.drd, &m2)?;
+    // (2b) a reader that delivers short reads (and seeks) must give the same message
+    {
+        let step = if body.len() > 20_000 { 1021 } else { 3 + c.lead.len() % 11 };
+        let mut r = crate::runner::Chunked::at(&shifted, step, c.lead.len() as u64);
+        let m3 = no_panic("decode_digital_radar_data", || drd::decode_digital_radar_data(&mut r))?
+            .map_err(|e| Fail::new("drd:wellformed-rejected-short-reads", format!("reader delivering {} bytes per read: {:?}", step, e)))?;
+        check_drd(&c.drd, &m3)?;
+    }
     // (3) through the message-stream decoder (28-byte message header first).  Only for contiguous
     // layouts: with permuted or gapped blocks the reader is left mid-message, which is outside the
     // statement (C03 restricts framing to contiguous layouts).
